@@ -197,6 +197,15 @@ func (f *Frame) loopEffects(li *loopInfo) *effectSet {
 		for _, c := range callees {
 			e.union(vc.P.effects(c))
 		}
+		for _, in := range b.Instrs {
+			if nx, ok := in.(*ssa.Next); ok && !nx.IsString {
+				if rng, ok := nx.Iter.(*ssa.Range); ok {
+					if m, ok := rng.X.Type().Underlying().(*types.Map); ok {
+						e.comps[f.rangeComp(rng, m).Name] = true
+					}
+				}
+			}
+		}
 	}
 	return e
 }
@@ -251,6 +260,15 @@ func (f *Frame) loopNames(li *loopInfo, phiVals map[*ssa.Phi]string) map[string]
 			if a, ok := in.(*ssa.Alloc); ok && a.Comment != "" && a.Block().Dominates(h) {
 				if x, ok := f.env[a]; ok && x.T != "" {
 					names[a.Comment] = &specBinding{V: vc.sv(x.T, a.Type()), Deref: true}
+				}
+			}
+		}
+	}
+	for _, in := range h.Instrs {
+		if nx, ok := in.(*ssa.Next); ok && !nx.IsString {
+			if rng, ok := nx.Iter.(*ssa.Range); ok {
+				if m, ok := rng.X.Type().Underlying().(*types.Map); ok {
+					names["#seen"] = &specBinding{V: ghost(f.rangeComp(rng, m).Name, "RangeComp!")}
 				}
 			}
 		}
